@@ -1719,11 +1719,11 @@ graph defined before the enclosing control-flow node; every If/Loop subgraph out
 of that subgraph; and every function output is visible at the end of the body. -/
 theorem convert_scoped_ok {f : Func} {g : Graph} (h : convert f = .ok g) :
     wfNodes g.inputs g.nodes = true ∧ ∀ o, o ∈ g.outputs → o ∈ g.inputs ++ topDefs g.nodes := by
-  unfold convert at h
+  obtain ⟨h, _, d0, ha0⟩ := convert_core h
+  unfold convertCore at h
   cases ha : assignedBlock f.body with
-  | none => rw [ha] at h; cases h
+  | none => rw [ha] at ha0; cases ha0
   | some d =>
-    rw [ha] at h
     simp only at h
     cases hc : convTop (tensorParams f.params) f.retCount [paramFrame f.params] f.body []
         { used := (tensorParams f.params).reverse, next := 0, castable := [] } with
@@ -1883,11 +1883,11 @@ theorem convTop_nodup {inputs : List Name} {rc : Option Nat} :
 
 /-- **Function outputs are pairwise distinct** (`_translate_return_stmt` copies a value that is already an output). -/
 theorem convert_outputs_nodup {f : Func} {g : Graph} (h : convert f = .ok g) : g.outputs.Nodup := by
-  unfold convert at h
+  obtain ⟨h, _, d0, ha0⟩ := convert_core h
+  unfold convertCore at h
   cases ha : assignedBlock f.body with
-  | none => rw [ha] at h; cases h
+  | none => rw [ha] at ha0; cases ha0
   | some d =>
-    rw [ha] at h
     simp only at h
     cases hc : convTop (tensorParams f.params) f.retCount [paramFrame f.params] f.body []
         { used := (tensorParams f.params).reverse, next := 0, castable := [] } with
@@ -2105,11 +2105,11 @@ theorem paramFrame_find : ∀ (ps : List Param) (x : Name), (ps.map Param.name).
 3b56caa the test looks at the returned value itself). -/
 theorem convert_no_input_returned {f : Func} {g : Graph} (h : convert f = .ok g) :
     ∀ o, o ∈ g.outputs → o ∉ g.inputs := by
-  unfold convert at h
+  obtain ⟨h, _, d0, ha0⟩ := convert_core h
+  unfold convertCore at h
   cases ha : assignedBlock f.body with
-  | none => rw [ha] at h; cases h
+  | none => rw [ha] at ha0; cases ha0
   | some d =>
-    rw [ha] at h
     simp only at h
     cases hc : convTop (tensorParams f.params) f.retCount [paramFrame f.params] f.body []
         { used := (tensorParams f.params).reverse, next := 0, castable := [] } with
